@@ -863,6 +863,15 @@ def into_iter(eng, st, site, func, target, args, dty):
     return None
 
 
+@stub(r"^std::iter::Iterator::chain$")
+def iter_chain(eng, st, site, func, target, args, dty):
+    a = iter_items(eng, st, args[0] if not isinstance(args[0], VArr) else VIter("array", args[0].elems, 0))
+    b = iter_items(eng, st, args[1] if not isinstance(args[1], VArr) else VIter("array", args[1].elems, 0))
+    if a is None or b is None:
+        return None
+    return [(st, VIter("array", tuple(a) + tuple(b), 0, "chain"))]
+
+
 @stub(r"^std::iter::Iterator::zip$")
 def iter_zip(eng, st, site, func, target, args, dty):
     a, b = args[0], args[1]
@@ -916,7 +925,7 @@ def iter_next(eng, st, site, func, target, args, dty):
                 nv = VAdt(it.ty, it.vidx, {0: (start, VInt(end.ty, end.lin - 1))}, it.base)
                 item = VInt(end.ty, end.lin - 1)
             eng.store(s_some, loc[0], loc[1], nv)
-            s_some.emit(("range_next", back, item, site_info(site)))
+            s_some.emit(("range_next", back, item, site_info(site), start.lin, end.lin))
             out.append((s_some, mk_option(eng, dty, True, item)))
         if eng.add(st, c_le(end.lin, start.lin)):
             out.append((st, mk_option(eng, dty, False)))
@@ -948,7 +957,7 @@ def iter_next(eng, st, site, func, target, args, dty):
                         vv = s_some.cells.get(it.src)
                         item = eng.unknown_elem(s_some, vv, it.pos)
                     eng.store(s_some, loc[0], loc[1], VIter(it.kind, it.items, it.pos + 1, it.src, it.extra))
-                    s_some.emit(("range_next", False, VInt(eng.usize_ty(), it.pos), site_info(site)))
+                    s_some.emit(("range_next", False, VInt(eng.usize_ty(), it.pos), site_info(site), it.pos, lens[0]))
                     s_some.emit(("iter_next", it.kind, (it.src.base if it.kind == "slice" else (it.src[0].base if it.kind == "zip" else it.src)), back, site_info(site)))
                     out.append((s_some, mk_option(eng, dty, True, item)))
                 # None when some length is exhausted
